@@ -355,7 +355,7 @@ def parse_func(lines, mod):
             pend += ' ' + st
             if st == ']': joined.append(pend); pend = None
             continue
-        if st.startswith(('to label', 'catch ', 'cleanup', 'filter ')) and joined:
+        if (st.startswith(('to label', 'catch ', 'filter ')) or st == 'cleanup') and joined and not re.match(r'^("[^"]*"|[-a-zA-Z$._0-9]+):', st):
             joined[-1] += ' ' + st; continue
         if st.startswith('switch ') and st.endswith('[') :
             pend = ln; continue
